@@ -120,6 +120,8 @@ func genSlowSealCase(seed int64, w *bufio.Writer) {
 	for _, n := range all {
 		emit("process 1 %d", n)
 	}
+	emit("allblocks 0")
+	emit("allblocks 1")
 	emit("state 0")
 	emit("state 1")
 }
